@@ -304,6 +304,23 @@ def corruptions(rng, doc, root_b64, sec):
             el(d, "quote")["message"] = bytes(q).hex()
             el(d, "quote")["signature"] = sign_digest(sec["att"], hashlib.sha256(bytes(q)).digest()).hex()
             out.append(("custom-hash-at-offset-%d" % off, d, root_b64, NOW))
+        # report data that commits to nothing, or to a mere prefix of the hash: all zeroes, and the first k bytes of
+        # the hash followed by zeroes - genuinely signed by the right key ("begins with SHA-256(...)" means all 32)
+        for k in (0, 1, 8, 31):
+            at = el(doc, "attestation")
+            want = hashlib.sha256(bytes.fromhex(at["key"])[-64:] + bytes.fromhex(at["auth_data"])).digest()
+            body = bytearray(bytes.fromhex(at["message"]))
+            body[320:384] = want[:k] + bytes(64 - k)
+            d = copy.deepcopy(doc)
+            el(d, "attestation")["message"] = bytes(body).hex()
+            el(d, "attestation")["signature"] = sign_digest(sec["qe"], hashlib.sha256(bytes(body)).digest()).hex()
+            out.append(("key-hash-prefix-%d-then-zeroes" % k, d, root_b64, NOW))
+            q = bytearray(sec["quote"])
+            q[48 + 320:48 + 384] = hashlib.sha256(sec["custom"]).digest()[:k] + bytes(64 - k)
+            d = copy.deepcopy(doc)
+            el(d, "quote")["message"] = bytes(q).hex()
+            el(d, "quote")["signature"] = sign_digest(sec["att"], hashlib.sha256(bytes(q)).digest()).hex()
+            out.append(("custom-hash-prefix-%d-then-zeroes" % k, d, root_b64, NOW))
     # re-parenting
     d = copy.deepcopy(doc)
     el(d, "quote")["signed_by"] = "quoting_enclave"
